@@ -271,4 +271,113 @@ theorem refInvLevel1_lin (s : R) (g0o g1o : List R) (hg0 : g0o.length % 2 = 1) (
   rw [e]
   exact p
 
+/-! ### the pyramid -/
+
+/-- two pyramids of one forward-compatible shape above a level whose band size is `(r, c)`: `rest`, `rest'` are the coarser
+levels (finest first), `Z`, `Z'` the low-passes; every band real and imaginary part rectangular -/
+def PyrR : Nat → Nat → List (List (Cplx R)) → List (List (Cplx R)) → Img R → Img R → Prop
+  | r, c, [], [], Z, Z' => Rect Z (2*r) (2*c) ∧ Rect Z' (2*r) (2*c)
+  | r, c, b :: rest, b' :: rest', Z, Z' => ∃ r' c', 1 ≤ r' ∧ 1 ≤ c' ∧ BandRect b r' c' ∧ BandRect b' r' c' ∧
+      (4*r' = 2*r ∨ 4*r' = 2*r + 2) ∧ (4*c' = 2*c ∨ 4*c' = 2*c + 2) ∧ PyrR r' c' rest rest' Z Z'
+  | _, _, _, _, _, _ => False
+
+theorem PyrR.left : ∀ (rest rest' : List (List (Cplx R))) (r c : Nat) (Z Z' : Img R), PyrR r c rest rest' Z Z' → PyrOK r c rest Z
+  | [], [], _, _, _, _, h => h.1
+  | [], _ :: _, _, _, _, _, h => absurd h (by simp [PyrR])
+  | _ :: _, [], _, _, _, _, h => absurd h (by simp [PyrR])
+  | b :: rest, b' :: rest', r, c, Z, Z', h => by
+    obtain ⟨r', c', hr', hc', hb, _, h1, h2, hrest⟩ := h
+    exact ⟨r', c', hr', hc', hb.ok hr', h1, h2, PyrR.left rest rest' r' c' Z Z' hrest⟩
+
+theorem PyrR.right : ∀ (rest rest' : List (List (Cplx R))) (r c : Nat) (Z Z' : Img R), PyrR r c rest rest' Z Z' → PyrOK r c rest' Z'
+  | [], [], _, _, _, _, h => h.2
+  | [], _ :: _, _, _, _, _, h => absurd h (by simp [PyrR])
+  | _ :: _, [], _, _, _, _, h => absurd h (by simp [PyrR])
+  | b :: rest, b' :: rest', r, c, Z, Z', h => by
+    obtain ⟨r', c', hr', hc', _, hb', h1, h2, hrest⟩ := h
+    exact ⟨r', c', hr', hc', hb'.ok hr', h1, h2, PyrR.right rest rest' r' c' Z Z' hrest⟩
+
+theorem PyrR.comb (a b : R) : ∀ (rest rest' : List (List (Cplx R))) (r c : Nat) (Z Z' : Img R), PyrR r c rest rest' Z Z' →
+    PyrOK r c (plinC a b rest rest') (ilin a b Z Z')
+  | [], [], r, c, Z, _, h => ilin_rect a b Z _ (2*r) (2*c) h.1
+  | [], _ :: _, _, _, _, _, h => absurd h (by simp [PyrR])
+  | _ :: _, [], _, _, _, _, h => absurd h (by simp [PyrR])
+  | b0 :: rest, b0' :: rest', r, c, Z, Z', h => by
+    obtain ⟨r', c', hr', hc', hb, hb', h1, h2, hrest⟩ := h
+    exact ⟨r', c', hr', hc', (blin_rect a b b0 b0' r' c' hb hb').ok hr', h1, h2, PyrR.comb a b rest rest' r' c' Z Z' hrest⟩
+
+theorem bandSize_rect (o : List (Cplx R)) (r c : Nat) (hr : 1 ≤ r) (h : BandRect o r c) : bandSize o = (r, c) :=
+  bandSize_of_ok o r c (h.ok hr)
+
+/-- **the coarse-to-fine recursion of the reference inverse is linear** -/
+theorem refInvGo_lin (s : R) (g0a g0b g1a g1b : List R) (a b : R) :
+    ∀ (rest rest' : List (List (Cplx R))) (finer finer' : List (Cplx R)) (r c : Nat) (Z Z' : Img R), 1 ≤ r → 1 ≤ c →
+      BandRect finer r c → BandRect finer' r c → PyrR r c rest rest' Z Z' →
+      Spec.refInvGo s g0a g0b g1a g1b (blin a b finer finer') (plinC a b rest rest') (ilin a b Z Z')
+        = ilin a b (Spec.refInvGo s g0a g0b g1a g1b finer rest Z) (Spec.refInvGo s g0a g0b g1a g1b finer' rest' Z') ∧
+      Rect (Spec.refInvGo s g0a g0b g1a g1b finer rest Z) (2*r) (2*c) ∧
+      Rect (Spec.refInvGo s g0a g0b g1a g1b finer' rest' Z') (2*r) (2*c)
+  | [], [], _, _, _, _, _, _, _, _, _, _, h => ⟨rfl, h.1, h.2⟩
+  | [], _ :: _, _, _, _, _, _, _, _, _, _, _, h => absurd h (by simp [PyrR])
+  | _ :: _, [], _, _, _, _, _, _, _, _, _, _, h => absurd h (by simp [PyrR])
+  | b0 :: rest, b0' :: rest', finer, finer', r, c, Z, Z', hr, hc, hf, hf', h => by
+    obtain ⟨r', c', hr', hc', hb, hb', h1, h2, hrest⟩ := h
+    obtain ⟨e, rz, rz'⟩ := refInvGo_lin s g0a g0b g1a g1b a b rest rest' b0 b0' r' c' Z Z' hr' hc' hb hb' hrest
+    obtain ⟨e2, ry⟩ := refInvLevel2_lin s g0a g0b g1a g1b a b _ _ b0 b0' r' c' hr' hc' rz rz' hb hb'
+    obtain ⟨_, ry'⟩ := refInvLevel2_lin s g0a g0b g1a g1b a b _ _ b0' b0 r' c' hr' hc' rz' rz hb' hb
+    have hH : 4*r' = 2*r ∨ 4*r' = 2*r + 2 := h1
+    have hW : 4*c' = 2*c ∨ 4*c' = 2*c + 2 := h2
+    have bs := bandSize_rect finer r c hr hf
+    have bs' := bandSize_rect finer' r c hr hf'
+    have bsl := bandSize_rect _ r c hr (blin_rect a b finer finer' r c hf hf')
+    simp only [Spec.refInvGo, plinC, List.zipWith_cons_cons]
+    rw [bs, bs', bsl]
+    simp only []
+    have : List.zipWith (blin a b) rest rest' = plinC a b rest rest' := rfl
+    rw [this, e, e2, cropToHighs_lin a b _ _ (4*r') (4*c') r c hr hc ry ry' hH hW]
+    exact ⟨rfl, crop_rect _ _ _ r c hr hc ry hH hW, crop_rect _ _ _ r c hr hc ry' hH hW⟩
+
+/-- **the reference inverse DTCWT is linear** on two pyramids of one forward-compatible shape, every number of levels -/
+theorem refInverse_linear (s : R) (g0o g1o g0a g0b g1a g1b : List R) (hg0 : g0o.length % 2 = 1) (hg1 : g1o.length % 2 = 1) (a b : R)
+    (b1 b1' : List (Cplx R)) (rest rest' : List (List (Cplx R))) (low low' : Img R) (r c : Nat) (hr : 1 ≤ r) (hc : 1 ≤ c)
+    (hb : BandRect b1 r c) (hb' : BandRect b1' r c) (hok : PyrR r c rest rest' low low') :
+    Spec.refInverse s g0o g1o g0a g0b g1a g1b (ilin a b low low') (plinC a b (b1 :: rest) (b1' :: rest'))
+      = ilin a b (Spec.refInverse s g0o g1o g0a g0b g1a g1b low (b1 :: rest)) (Spec.refInverse s g0o g1o g0a g0b g1a g1b low' (b1' :: rest')) := by
+  obtain ⟨e, rz, rz'⟩ := refInvGo_lin s g0a g0b g1a g1b a b rest rest' b1 b1' r c low low' hr hc hb hb' hok
+  simp only [Spec.refInverse, plinC, List.zipWith_cons_cons]
+  have : List.zipWith (blin a b) rest rest' = plinC a b rest rest' := rfl
+  rw [this, e]
+  exact refInvLevel1_lin s g0o g1o hg0 hg1 a b _ _ b1 b1' r c hr hc rz rz' hb hb'
+
+/-- **the inverse DTCWT of the implementation model is linear** on pyramids of one forward-compatible shape with all levels
+present: it returns on `P`, on `Q` and on `a·P + b·Q`, and the third result is `a·` the first `+ b·` the second -/
+theorem DTCWTInverse_linear (s : R) (g0o g1o g0a g0b g1a g1b : List R) (hm0 : g0b.length % 2 = 0) (hm0' : 2 ≤ g0b.length)
+    (hab0 : g0a.length = g0b.length) (hm1 : g1b.length % 2 = 0) (hm1' : 2 ≤ g1b.length) (hab1 : g1a.length = g1b.length)
+    (hg0 : g0o.length % 2 = 1) (hg1 : g1o.length % 2 = 1) (a b : R)
+    (b1 b1' : List (Cplx R)) (rest rest' : List (List (Cplx R))) (low low' : Img R) (r c : Nat) (hr : 1 ≤ r) (hc : 1 ≤ c)
+    (hb : BandRect b1 r c) (hb' : BandRect b1' r c) (hok : PyrR r c rest rest' low low') :
+    ∃ u v,
+      DTCWTInverse s true (mkGg g0o g1o g0a g0b g1a g1b) (((b1 :: rest).map some).map bsz) (bsz (some b1)) (some low)
+        ((b1 :: rest).map some) = some u ∧
+      DTCWTInverse s true (mkGg g0o g1o g0a g0b g1a g1b) (((b1' :: rest').map some).map bsz) (bsz (some b1')) (some low')
+        ((b1' :: rest').map some) = some v ∧
+      DTCWTInverse s true (mkGg g0o g1o g0a g0b g1a g1b) (((plinC a b (b1 :: rest) (b1' :: rest')).map some).map bsz)
+        (bsz (some (blin a b b1 b1'))) (some (ilin a b low low')) ((plinC a b (b1 :: rest) (b1' :: rest')).map some)
+        = some (ilin a b u v) := by
+  have e1 := dtcwt_inverse_eq_ref s g0o g1o g0a g0b g1a g1b hm0 hm0' hab0 hm1 hm1' hab1 hg0 hg1 b1 rest low r c hr hc (hb.ok hr)
+    (PyrR.left rest rest' r c low low' hok)
+  have e2 := dtcwt_inverse_eq_ref s g0o g1o g0a g0b g1a g1b hm0 hm0' hab0 hm1 hm1' hab1 hg0 hg1 b1' rest' low' r c hr hc (hb'.ok hr)
+    (PyrR.right rest rest' r c low low' hok)
+  have e3 := dtcwt_inverse_eq_ref s g0o g1o g0a g0b g1a g1b hm0 hm0' hab0 hm1 hm1' hab1 hg0 hg1 (blin a b b1 b1') (plinC a b rest rest')
+    (ilin a b low low') r c hr hc ((blin_rect a b b1 b1' r c hb hb').ok hr) (PyrR.comb a b rest rest' r c low low' hok)
+  refine ⟨_, _, e1, e2, ?_⟩
+  have hp : plinC a b (b1 :: rest) (b1' :: rest') = blin a b b1 b1' :: plinC a b rest rest' := rfl
+  rw [hp, e3, ← hp, refInverse_linear s g0o g1o g0a g0b g1a g1b hg0 hg1 a b b1 b1' rest rest' low low' r c hr hc hb hb' hok]
+
+/-- the shape hypothesis is satisfiable: one level of six 1 × 1 complex bands -/
+example : BandRect (R := Int) (List.replicate 6 ([[5]], [[6]])) 1 1 := by
+  refine ⟨rfl, ?_⟩
+  intro k hk
+  interval_cases k <;> (constructor <;> constructor <;> simp)
+
 end WV.C07U
